@@ -40,6 +40,7 @@ type Options struct {
 	MaxDepth    int
 	MapRange    bool // range over the single-entry map
 	StateProbes bool // sprinkle state probes ({{.}}, isset, yield content)
+	Sites       bool // C12: probe statements are {{mark(K)}} site placeholders, only outside try; every file defines block zb
 	TargetTry   bool // place exactly one instrumented try statement (C13); probes only inside its body
 	CatchForm   int  // 0: no catch, 1: catch without variable, 2: catch with variable
 }
@@ -209,7 +210,7 @@ func (g *G) strExpr(sc scopeInfo, depth int) string {
 		case 3, 4:
 			return "(" + g.boolExpr(sc, depth+1) + " ? " + g.strExpr(sc, depth+1) + " : " + g.strExpr(sc, depth+1) + ")"
 		case 5:
-			if g.probesOn && g.O.ProbeExpr {
+			if g.probesOn && g.O.ProbeExpr && !g.O.Sites {
 				return g.probeExpr(sc, true)
 			}
 		case 6:
@@ -294,7 +295,7 @@ func (g *G) stmt(sc *scopeInfo) {
 		3,                // 1 print expr
 		w(g.probesOn, 3), // 2 probe statement
 		w(o.Vars, 2),     // 3 let
-		w(o.Vars && len(sc.vars) > 0 && !sc.noLocals, 1), // 4 set
+		w(o.Vars && len(sc.vars) > 0 && !sc.noLocals && !o.TargetTry, 1), // 4 set (not in C13 worlds: a body that reaches an assignment only when it does not fail is a legitimate difference)
 		w(o.If && !deep, 2),    // 5 if
 		w(o.Range && !deep, 3), // 6 range
 		w(o.Blocks && !deep && sc.depth == 0 && !sc.noLocals, 2), // 7 block definition (top level of a file only)
@@ -324,7 +325,17 @@ func (g *G) stmt(sc *scopeInfo) {
 			g.act(g.strExpr(*sc, 0) + []string{" | raw", " | lower", " | upper | lower", " | repeat: 2"}[g.T.Choose(4)])
 		}
 	case 2:
-		g.act(g.probeExpr(*sc, false))
+		if g.O.Sites {
+			if sc.inTry == 0 {
+				id := len(g.W.Probes) + 1
+				g.W.Probes = append(g.W.Probes, ProbeSite{ID: id, File: g.f.path, Line: g.f.line + 1, Encl: sc.encl})
+				g.emit(SitePlaceholder(id))
+			} else {
+				g.text()
+			}
+		} else {
+			g.act(g.probeExpr(*sc, false))
+		}
 	case 3:
 		v := g.newVar()
 		g.act(v + " := " + g.strExpr(*sc, 0))
@@ -484,9 +495,9 @@ func (g *G) blockDef(sc scopeInfo) {
 			hdr += ", "
 		}
 		hdr += p
-		if g.T.Choose(3) > 0 {
-			hdr += "=" + g.strExpr(scopeInfo{ctx: KAny, noLocals: true}, 1)
-		}
+		// a parameter without a default makes the in-place rendering of the definition fail
+		// ("missing name for block parameter"), so defaults are always given
+		hdr += "=" + g.strExpr(scopeInfo{ctx: KAny, noLocals: true}, 1)
 	}
 	hdr += ")"
 	in := sc.child("block")
@@ -597,6 +608,13 @@ func (g *G) tryStmt(sc scopeInfo) {
 	g.act("end")
 }
 
+// SitePlaceholder is the exact text of failure-site K in Sites mode (C12); it
+// never spans lines, so replacing it keeps every line number.
+func SitePlaceholder(id int) string { return fmt.Sprintf("{{mark(%d)}}", id) }
+
+// ZBlock is defined at the top of every file in Sites mode.
+const ZBlock = `{{block zb(p="d")}}{{end}}`
+
 // Mark ids of the instrumented try statement (C13).
 const (
 	MarkTryBegin = 9001
@@ -647,6 +665,9 @@ func (g *G) file(path, role string, extends string, imports []string, visible []
 	for _, im := range imports {
 		g.act(fmt.Sprintf("import %q", im))
 		g.emit("\n")
+	}
+	if g.O.Sites {
+		g.emit(ZBlock + "\n")
 	}
 	sc := scopeInfo{ctx: KRoot}
 	switch role {
